@@ -68,6 +68,9 @@ def cases(draw):
     flat = flat_recipe(chain, idx)
     values = draw(values_for(R.to_schema(flat, R.index(chain + [flat])), 6, 10))
     steps = draw(st.lists(step(), min_size=3, max_size=8))
+    for i, st_ in enumerate(steps):
+        if st_["op"] == "reconf_prop":
+            st_["prop"]["element"]["id"] = 9000 + i  # one id per node: two steps must not share one
     return {"chain": chain, "values": values, "steps": steps}
 
 
